@@ -674,6 +674,12 @@ XProg(v) ==
          mk(<<StructL("St", "S2", <<"F", "G">>, FALSE)>>, <<>>,
             <<XInj("Inject", <<Par("g", "T3"), Par("unrelated", "T9"), Par("f", "T2")>>, "S2", <<ItL(1)>>, 1),
               XInj("InjectP", <<Par("f", "T2"), Par("g", "T3")>>, "*S2", <<ItL(1)>>, 1)>>)
+    [] v \in {"inaccessible-value", "inaccessible-value-full-sig"} ->   \* a value expression of another package that mentions an unexported identifier
+         mk(<<[ValueL("VH", "U1") EXCEPT !.inacc = TRUE], XF("P1", <<"U1">>, "T1")>>, <<SetD("SetB", "b", <<ItL(1)>>)>>,
+            <<[XInj("Inject", <<>>, "T1", <<ItS(1), ItL(2)>>, 1) EXCEPT !.cl = (v = "inaccessible-value-full-sig"), !.er = (v = "inaccessible-value-full-sig")]>>)
+    [] v = "foreign-struct-star-full-sig" ->
+         mk(<<StructL("St", "S9", <<>>, TRUE), FuncIn("PU1", "b", <<>>, "U1", FALSE, FALSE), FuncIn("PU2", "b", <<>>, "U2", FALSE, FALSE)>>, <<>>,
+            <<[XInj("Inject", <<>>, "S9", <<ItL(1), ItL(2), ItL(3)>>, 1) EXCEPT !.cl = TRUE, !.er = TRUE]>>)
     [] v = "same-set-twice-direct" ->          \* one set listed twice in the same call
          mk(<<XF("P2", <<>>, "T2"), XF("P1", <<"T2">>, "T1")>>, <<SetD("SetA", "a", <<ItL(1)>>)>>,
             <<XInj("Inject", <<>>, "T1", <<ItS(1), ItL(2), ItS(1)>>, 1)>>)
@@ -687,7 +693,8 @@ XVariants == {"star-foreign-tag-missing", "star-foreign-tag-ok", "two-files-firs
               "same-named-sets-two-packages", "two-unnamed-values", "same-name-packages", "two-fieldsof-items", "bind-after-concrete",
               "iface-result-bound-to-value-struct", "alias-satisfies", "defined-type-does-not-satisfy", "pointer-does-not-satisfy-value",
               "value-does-not-satisfy-pointer", "multi-name-var-sets-missing", "two-fieldsof-second-unused", "missing-under-fieldsof-parent",
-              "set-used-by-first-injector-only", "struct-fields-from-params-crossed"}
+              "set-used-by-first-injector-only", "struct-fields-from-params-crossed", "inaccessible-value", "inaccessible-value-full-sig",
+              "foreign-struct-star-full-sig"}
 FamilyX(p, vs) == \E v \in vs : p = XProg(v)
 
 (* ======================================================================== *)
